@@ -222,6 +222,16 @@ Theorem C18_argument_at_token :
 Proof. exact RejectFacts.illegal_arguments_rejected. Qed.
 Print Assumptions C18_argument_at_token.
 
+(* a byte sequence that is no token, after a prefix of the grammar: reported at the place where no rule matches *)
+Theorem C18_lexical_error_after_prefix :
+  forall T : tables,
+  twf_tables T = true ->
+  forall (text : bytes) (L : list bytes) (prev : option bytes) (k p : nat),
+  wf_prefix T (map strip_pos (fst (lex text))) L prev k ->
+  snd (lex text) = Some p -> exists ll : nat, parse T text = Reject EUnknownToken p ll.
+Proof. exact RejectFacts.lexical_error_rejected. Qed.
+Print Assumptions C18_lexical_error_after_prefix.
+
 (* a tag the test does not take / whose extension is not loaded, an ill-typed value in a test: reported at that token *)
 Theorem C18_test_argument_at_token :
   forall T : tables,
